@@ -110,7 +110,17 @@ fn list_cmp(g: &mut FilterGen<'_>, r: &mut Rng, env: &Env, name: &str) -> Option
 
 pub fn run(run: &Run) {
     let seed = run.opts.seed;
-    let envs: Vec<Eng> = (0..6).map(|o| Eng::new(list_env(o, ListKind::Harness))).collect();
+    // every second scheme comes from a builder that also refused redefinitions
+    let envs: Vec<Eng> = (0..6)
+        .map(|o| {
+            let env = list_env(o, ListKind::Harness);
+            if o % 2 == 1 {
+                Eng::new_after_refusals(env)
+            } else {
+                Eng::new(env)
+            }
+        })
+        .collect();
     let always = Eng::new(list_env(0, ListKind::Always));
     let never = Eng::new(list_env(1, ListKind::Never));
 
